@@ -190,7 +190,7 @@ func enumerateQueries(cfg genConfig) []*Query {
 	add := func(ms []Matcher, st ...Stage) {
 		out = append(out, &Query{Matchers: append([]Matcher{}, ms...), Stages: append([]Stage{}, st...)})
 	}
-	all := []Matcher{{"a", "=~", ".+"}}   // every stream that has label a (families A and H)
+	all := []Matcher{{"a", "=~", ".+"}}  // every stream that has label a (families A and H)
 	allB := []Matcher{{"b", "!=", "zz"}} // by a negative matcher on b
 
 	// 1. selectors alone
